@@ -54,8 +54,16 @@ fn ingest(rep: &Replica, op: &Op) -> Result<bool, String> {
     }
 }
 
-/// The oracle for one execution.  Returns (violations, ops transferred).
-fn oracle(chains: &Chains, cfg: &Config, reps: &[Replica; 2], run: &PairRun) -> (Vec<(String, String)>, usize) {
+/// The oracle for one execution.  Returns (violations, ops transferred).  `verified` caches the
+/// received lists whose ingest + height comparison already passed for this configuration (the
+/// ingest result is a function of the configuration and the received lists only).
+fn oracle(
+    chains: &Chains,
+    cfg: &Config,
+    reps: &[Replica; 2],
+    run: &PairRun,
+    verified: &std::cell::RefCell<BTreeSet<u64>>,
+) -> (Vec<(String, String)>, usize) {
     let mut v: Vec<(String, String)> = vec![];
     let name = ["A", "B"];
     if let Some(p) = &run.panic {
@@ -150,6 +158,10 @@ fn oracle(chains: &Chains, cfg: &Config, reps: &[Replica; 2], run: &PairRun) -> 
         return (v, transferred);
     }
     // Ingest what was received with the real ingest_operation, then compare heights.
+    let recv_key = explorer::h64(&[0usize, 1].map(|i| run.received(i).iter().map(|o| o.hash.to_hex()).collect::<Vec<_>>()));
+    if verified.borrow().contains(&recv_key) {
+        return (v, transferred);
+    }
     for i in 0..2 {
         for op in run.received(i) {
             if let Err(e) = ingest(&reps[i], &op) {
@@ -177,6 +189,9 @@ fn oracle(chains: &Chains, cfg: &Config, reps: &[Replica; 2], run: &PairRun) -> 
             }
         }
     }
+    if v.is_empty() {
+        verified.borrow_mut().insert(recv_key);
+    }
     (v, transferred)
 }
 
@@ -190,6 +205,7 @@ fn run_part(rep: &mut Report, chains: &Chains, part: &Part, wall: Duration) {
     let threads = rep.args.threads;
     let acc = par_for(&part.configs, threads, wall, |idx, cfg, acc: &mut Acc| {
         let mut flowed = false;
+        let verified = std::cell::RefCell::new(BTreeSet::new());
         let st = dfs(
             &DfsCfg { max_dev: part.max_dev, ..Default::default() },
             |ch: &Chooser| {
@@ -201,7 +217,7 @@ fn run_part(rep: &mut Report, chains: &Chains, part: &Part, wall: Duration) {
                     Cap::Unbounded,
                     5_000,
                 );
-                let (v, n) = oracle(chains, cfg, &reps, &run);
+                let (v, n) = oracle(chains, cfg, &reps, &run, &verified);
                 (v, n, run.steps, run.wire.iter().map(|w| w.iter().map(sym).collect::<Vec<_>>()).collect::<Vec<_>>())
             },
             |ch, (v, n, steps, syms)| {
